@@ -933,6 +933,8 @@ RULES = [
     Rule("C05.F6", rule_F6, floor=1, doc="serializer totality over metadata states"),
     Rule("C05.F7", rule_F7, floor=1, doc="threshold selection"),
     Rule("C05.F8", rule_F8, floor=3, doc="serialisation does not drift the configuration's identity"),
+    Rule("C05.F11", lambda ctx: __import__("sa.rules.c18", fromlist=["x"]).rule_H2(ctx), floor=5,
+         doc="'an equal configuration' rests on the configuration's field loaders: C18.H2 re-judged (generator, option dicts, recorded filters come back as they were stored)"),
     Rule("C05.E12", lambda ctx: __import__("sa.mypyx", fromlist=["x"]).cross_check(ctx, [f"{MD}.MazeDataset.serialize", f"{CD}.MazeDatasetCollection.serialize", f"{DS}.GPTDataset.save"], "C05.E12"), floor=1,
          doc="thorough: call graph over-approximates mypy's type-resolved edges on the serialization closure", tier="thorough"),
 ]
@@ -946,3 +948,8 @@ from sa import exits as _exits_ms  # noqa: E402
 
 RULES.append(Rule("C05.MS", _exits_ms.make_state_rule("C05", "C05.MS", _exits_ms.SCOPES.get("C05", [])), floor=1,
                   doc="no hidden module-level state on the anchored path: results do not depend on the history of the process (E17)"))
+
+from sa import exits as _exits_nw  # noqa: E402
+
+RULES.append(Rule("C05.NW", _exits_nw.make_narrowing_rule("C05", "C05.NW", _exits_nw.SCOPES.get("C05", [])), floor=1,
+                  doc="no new narrowing cast (8/16-bit element types) on the anchored path: coordinates, lengths and indices do not wrap (E18)"))
